@@ -35,6 +35,7 @@ struct nv_parameter { struct nv_str m_name; struct nv_storage m_storage; };
 struct nv_tup_i32 { int32_t _0, _1; };
 struct nv_tup_i64 { int64_t _0, _1; };
 struct nv_tup_f64 { double _0, _1; };
+struct nv_tup_f32 { float _0, _1; };
 
 /* std::isfinite(double) (the <cmath> function called by nano::isfinite<double>) */
 static _Bool nv_std_isfinite(double x) { return !__CPROVER_isnand(x) && !__CPROVER_isinfd(x); }
@@ -56,17 +57,43 @@ static _Bool nv_std_isfinite(double x) { return !__CPROVER_isnand(x) && !__CPROV
  * CBMC's conversion check) is converted without the built-in cast */
 #define NV_CONV(TS, x) NV_CONV_##TS(x)
 #define NV_CONV_double(x) ((double)(x))
-#define NV_CONV_int64_t(x) _Generic((x), double: (((x) == -9223372036854775808.0) ? INT64_MIN : (int64_t)(x)), default: ((int64_t)(x)))
+#define NV_CONV_int64_t(x) _Generic((x), double: (((x) == -9223372036854775808.0) ? INT64_MIN : (int64_t)(x)), \
+                                      float: (((x) == -9223372036854775808.0f) ? INT64_MIN : (int64_t)(x)), default: ((int64_t)(x)))
 /* double -> int64 is defined only for finite values whose truncation is representable, i.e. -2^63 <= x < 2^63 */
 #define NV_F2I_DEFINED(x) (NV_FIN_F(x) && (x) >= -9223372036854775808.0 && (x) < 9223372036854775808.0)
 
 /* ------------------------------------------------------------------ ::check<tscalar>(lelt, v1, v2) */
-#define NV_CONTRACT_CHECK \
-__CPROVER_requires(__CPROVER_is_fresh(lelt, sizeof(*lelt)) && NV_LELT_OK(*lelt)) \
+/* (parameter names are taken from the source through NV_ARG_<function>_<k>; one contract per instantiation that can exist:
+ * operands of type int64 (i64, ll), int32 (i32) or double (f64), compared as C++ compares them) */
+#define NV_CONTRACT_CHECK(L, A, B) \
+__CPROVER_requires(__CPROVER_is_fresh(L, sizeof(*L)) && NV_LELT_OK(*L)) \
 __CPROVER_assigns() \
-__CPROVER_ensures(__CPROVER_return_value == NV_CMP(*lelt, value1, value2))
-#define NV_CONTRACT_check_i64 NV_CONTRACT_CHECK
-#define NV_CONTRACT_check_f64 NV_CONTRACT_CHECK
+__CPROVER_ensures(__CPROVER_return_value == NV_CMP(*L, A, B))
+#define NV_CONTRACT_check_i64_i64 NV_CONTRACT_CHECK(NV_ARG_check_i64_i64_0, NV_ARG_check_i64_i64_1, NV_ARG_check_i64_i64_2)
+#define NV_CONTRACT_check_i64_ll NV_CONTRACT_CHECK(NV_ARG_check_i64_ll_0, NV_ARG_check_i64_ll_1, NV_ARG_check_i64_ll_2)
+#define NV_CONTRACT_check_i64_i32 NV_CONTRACT_CHECK(NV_ARG_check_i64_i32_0, NV_ARG_check_i64_i32_1, NV_ARG_check_i64_i32_2)
+#define NV_CONTRACT_check_i64_f64 NV_CONTRACT_CHECK(NV_ARG_check_i64_f64_0, NV_ARG_check_i64_f64_1, NV_ARG_check_i64_f64_2)
+#define NV_CONTRACT_check_ll_i64 NV_CONTRACT_CHECK(NV_ARG_check_ll_i64_0, NV_ARG_check_ll_i64_1, NV_ARG_check_ll_i64_2)
+#define NV_CONTRACT_check_ll_ll NV_CONTRACT_CHECK(NV_ARG_check_ll_ll_0, NV_ARG_check_ll_ll_1, NV_ARG_check_ll_ll_2)
+#define NV_CONTRACT_check_ll_i32 NV_CONTRACT_CHECK(NV_ARG_check_ll_i32_0, NV_ARG_check_ll_i32_1, NV_ARG_check_ll_i32_2)
+#define NV_CONTRACT_check_ll_f64 NV_CONTRACT_CHECK(NV_ARG_check_ll_f64_0, NV_ARG_check_ll_f64_1, NV_ARG_check_ll_f64_2)
+#define NV_CONTRACT_check_i32_i64 NV_CONTRACT_CHECK(NV_ARG_check_i32_i64_0, NV_ARG_check_i32_i64_1, NV_ARG_check_i32_i64_2)
+#define NV_CONTRACT_check_i32_ll NV_CONTRACT_CHECK(NV_ARG_check_i32_ll_0, NV_ARG_check_i32_ll_1, NV_ARG_check_i32_ll_2)
+#define NV_CONTRACT_check_i32_i32 NV_CONTRACT_CHECK(NV_ARG_check_i32_i32_0, NV_ARG_check_i32_i32_1, NV_ARG_check_i32_i32_2)
+#define NV_CONTRACT_check_i32_f64 NV_CONTRACT_CHECK(NV_ARG_check_i32_f64_0, NV_ARG_check_i32_f64_1, NV_ARG_check_i32_f64_2)
+#define NV_CONTRACT_check_f64_i64 NV_CONTRACT_CHECK(NV_ARG_check_f64_i64_0, NV_ARG_check_f64_i64_1, NV_ARG_check_f64_i64_2)
+#define NV_CONTRACT_check_f64_ll NV_CONTRACT_CHECK(NV_ARG_check_f64_ll_0, NV_ARG_check_f64_ll_1, NV_ARG_check_f64_ll_2)
+#define NV_CONTRACT_check_f64_i32 NV_CONTRACT_CHECK(NV_ARG_check_f64_i32_0, NV_ARG_check_f64_i32_1, NV_ARG_check_f64_i32_2)
+#define NV_CONTRACT_check_f64_f64 NV_CONTRACT_CHECK(NV_ARG_check_f64_f64_0, NV_ARG_check_f64_f64_1, NV_ARG_check_f64_f64_2)
+#define NV_CONTRACT_check_i64_f32 NV_CONTRACT_CHECK(NV_ARG_check_i64_f32_0, NV_ARG_check_i64_f32_1, NV_ARG_check_i64_f32_2)
+#define NV_CONTRACT_check_ll_f32 NV_CONTRACT_CHECK(NV_ARG_check_ll_f32_0, NV_ARG_check_ll_f32_1, NV_ARG_check_ll_f32_2)
+#define NV_CONTRACT_check_i32_f32 NV_CONTRACT_CHECK(NV_ARG_check_i32_f32_0, NV_ARG_check_i32_f32_1, NV_ARG_check_i32_f32_2)
+#define NV_CONTRACT_check_f64_f32 NV_CONTRACT_CHECK(NV_ARG_check_f64_f32_0, NV_ARG_check_f64_f32_1, NV_ARG_check_f64_f32_2)
+#define NV_CONTRACT_check_f32_i64 NV_CONTRACT_CHECK(NV_ARG_check_f32_i64_0, NV_ARG_check_f32_i64_1, NV_ARG_check_f32_i64_2)
+#define NV_CONTRACT_check_f32_ll NV_CONTRACT_CHECK(NV_ARG_check_f32_ll_0, NV_ARG_check_f32_ll_1, NV_ARG_check_f32_ll_2)
+#define NV_CONTRACT_check_f32_i32 NV_CONTRACT_CHECK(NV_ARG_check_f32_i32_0, NV_ARG_check_f32_i32_1, NV_ARG_check_f32_i32_2)
+#define NV_CONTRACT_check_f32_f64 NV_CONTRACT_CHECK(NV_ARG_check_f32_f64_0, NV_ARG_check_f32_f64_1, NV_ARG_check_f32_f64_2)
+#define NV_CONTRACT_check_f32_f32 NV_CONTRACT_CHECK(NV_ARG_check_f32_f32_0, NV_ARG_check_f32_f32_1, NV_ARG_check_f32_f32_2)
 
 /* ------------------------------------------------------------------ check-then-assign on a range record `r`
  * G: guard (which alternative is active), DEF: the conversion (TS)x is defined, x: the assigned number.
@@ -93,40 +120,52 @@ __CPROVER_ensures(EQ((r).m_min, NV_OLD((r).m_min)) && EQ((r).m_max, NV_OLD((r).m
 #define NV_SAME_P(EQ, r) (EQ((r).m_value1, NV_OLD((r).m_value1)) && EQ((r).m_value2, NV_OLD((r).m_value2)))
 
 /* ------------------------------------------------------------------ ::update(name, range_t<tscalar>&, tvalue) */
-#define NV_CONTRACT_UPDATE_R(FIN, EQ, TS, DEF) \
-__CPROVER_requires(!nv_thrown && __CPROVER_is_fresh(param, sizeof(*param)) && NV_RANGE_WF(*param)) \
-__CPROVER_assigns(nv_thrown, param->m_value) \
-NV_POST_R(1, FIN, EQ, TS, DEF, *param, value_) \
-__CPROVER_ensures(!nv_thrown ==> __CPROVER_return_value == param)
-
-#define NV_CONTRACT_update_ir_i64 NV_CONTRACT_UPDATE_R(NV_FIN_I, NV_EQ_I, int64_t, 1)
-#define NV_CONTRACT_update_ir_ll  NV_CONTRACT_UPDATE_R(NV_FIN_I, NV_EQ_I, int64_t, 1)
-/* double -> integer parameter, for EVERY double (the property quantifies over NaN / inf assignments and no caller
- * filters them: parameter_t::operator=(double) -> setd -> update(storage, double) -> here) */
-/* a real number assigned to an integer parameter: a value that is not finite or not representable as int64 is rejected
- * before the conversion (it was undefined behaviour before the repair recorded in known_findings.txt).
- * (CBMC's own conversion check wrongly flags x == -2^63, which C++ defines: the printer emits NV_F2I64 for such casts, whose
- * obligation is the exact C++ definedness condition.) */
-#define NV_CONTRACT_update_ir_f64 NV_CONTRACT_UPDATE_R(NV_FIN_I, NV_EQ_I, int64_t, NV_F2I_DEFINED(value_)) \
-__CPROVER_ensures(!NV_F2I_DEFINED(value_) ==> nv_thrown)
-#define NV_CONTRACT_update_fr_f64 NV_CONTRACT_UPDATE_R(NV_FIN_F, NV_EQ_F, double, 1)
-#define NV_CONTRACT_update_fr_i64 NV_CONTRACT_UPDATE_R(NV_FIN_F, NV_EQ_F, double, 1)
+#define NV_CONTRACT_UPDATE_R(FIN, EQ, TS, DEF, P, X) \
+__CPROVER_requires(!nv_thrown && __CPROVER_is_fresh(P, sizeof(*P)) && NV_RANGE_WF(*P)) \
+__CPROVER_assigns(nv_thrown, P->m_value) \
+NV_POST_R(1, FIN, EQ, TS, DEF, *P, X) \
+__CPROVER_ensures(!nv_thrown ==> __CPROVER_return_value == P)
+/* one contract per (parameter kind, assigned type) the templates can be instantiated for; only those that exist in the
+ * current source become targets.  A real number assigned to an integer parameter: a value that is not finite or not
+ * representable as int64 is rejected before the conversion (it was undefined behaviour before the repair recorded in
+ * known_findings.txt; the printer emits NV_F2I64 for such casts, whose obligation is the exact C++ definedness condition). */
+#define NV_UPD_R_I(n) NV_CONTRACT_UPDATE_R(NV_FIN_I, NV_EQ_I, int64_t, 1, NV_ARG_##n##_1, NV_ARG_##n##_2)
+#define NV_UPD_R_F(n) NV_CONTRACT_UPDATE_R(NV_FIN_F, NV_EQ_F, double, 1, NV_ARG_##n##_1, NV_ARG_##n##_2)
+#define NV_CONTRACT_update_ir_i64 NV_UPD_R_I(update_ir_i64)
+#define NV_CONTRACT_update_ir_ll  NV_UPD_R_I(update_ir_ll)
+#define NV_CONTRACT_update_ir_i32 NV_UPD_R_I(update_ir_i32)
+#define NV_CONTRACT_update_ir_f64 NV_CONTRACT_UPDATE_R(NV_FIN_I, NV_EQ_I, int64_t, NV_F2I_DEFINED(NV_ARG_update_ir_f64_2), NV_ARG_update_ir_f64_1, NV_ARG_update_ir_f64_2) \
+__CPROVER_ensures(!NV_F2I_DEFINED(NV_ARG_update_ir_f64_2) ==> nv_thrown)
+#define NV_CONTRACT_update_ir_f32 NV_CONTRACT_UPDATE_R(NV_FIN_I, NV_EQ_I, int64_t, NV_F2I_DEFINED(NV_ARG_update_ir_f32_2), NV_ARG_update_ir_f32_1, NV_ARG_update_ir_f32_2) \
+__CPROVER_ensures(!NV_F2I_DEFINED(NV_ARG_update_ir_f32_2) ==> nv_thrown)
+#define NV_CONTRACT_update_fr_f32 NV_UPD_R_F(update_fr_f32)
+#define NV_CONTRACT_update_fr_f64 NV_UPD_R_F(update_fr_f64)
+#define NV_CONTRACT_update_fr_i64 NV_UPD_R_F(update_fr_i64)
+#define NV_CONTRACT_update_fr_ll  NV_UPD_R_F(update_fr_ll)
+#define NV_CONTRACT_update_fr_i32 NV_UPD_R_F(update_fr_i32)
 
 /* ------------------------------------------------------------------ ::update(name, pair_range_t<tscalar>&, v1, v2) */
-#define NV_CONTRACT_UPDATE_P(FIN, EQ, TS, DEF) \
-__CPROVER_requires(!nv_thrown && __CPROVER_is_fresh(param, sizeof(*param)) && NV_PAIR_WF(*param)) \
-__CPROVER_assigns(nv_thrown, param->m_value1, param->m_value2) \
-NV_POST_P(1, FIN, EQ, TS, DEF, *param, value1_, value2_) \
-__CPROVER_ensures(!nv_thrown ==> __CPROVER_return_value == param)
-
-#define NV_CONTRACT_update_ip_i64 NV_CONTRACT_UPDATE_P(NV_FIN_I, NV_EQ_I, int64_t, 1)
-#define NV_CONTRACT_update_ip_ll  NV_CONTRACT_UPDATE_P(NV_FIN_I, NV_EQ_I, int64_t, 1)
-#define NV_CONTRACT_update_ip_i32 NV_CONTRACT_UPDATE_P(NV_FIN_I, NV_EQ_I, int64_t, 1)
-#define NV_CONTRACT_update_ip_f64 NV_CONTRACT_UPDATE_P(NV_FIN_I, NV_EQ_I, int64_t, NV_F2I_DEFINED(value1_) && NV_F2I_DEFINED(value2_)) \
-__CPROVER_ensures(!(NV_F2I_DEFINED(value1_) && NV_F2I_DEFINED(value2_)) ==> nv_thrown)
-#define NV_CONTRACT_update_fp_f64 NV_CONTRACT_UPDATE_P(NV_FIN_F, NV_EQ_F, double, 1)
-#define NV_CONTRACT_update_fp_i64 NV_CONTRACT_UPDATE_P(NV_FIN_F, NV_EQ_F, double, 1)
-#define NV_CONTRACT_update_fp_i32 NV_CONTRACT_UPDATE_P(NV_FIN_F, NV_EQ_F, double, 1)
+#define NV_CONTRACT_UPDATE_P(FIN, EQ, TS, DEF, P, X1, X2) \
+__CPROVER_requires(!nv_thrown && __CPROVER_is_fresh(P, sizeof(*P)) && NV_PAIR_WF(*P)) \
+__CPROVER_assigns(nv_thrown, P->m_value1, P->m_value2) \
+NV_POST_P(1, FIN, EQ, TS, DEF, *P, X1, X2) \
+__CPROVER_ensures(!nv_thrown ==> __CPROVER_return_value == P)
+#define NV_UPD_P_I(n) NV_CONTRACT_UPDATE_P(NV_FIN_I, NV_EQ_I, int64_t, 1, NV_ARG_##n##_1, NV_ARG_##n##_2, NV_ARG_##n##_3)
+#define NV_UPD_P_F(n) NV_CONTRACT_UPDATE_P(NV_FIN_F, NV_EQ_F, double, 1, NV_ARG_##n##_1, NV_ARG_##n##_2, NV_ARG_##n##_3)
+#define NV_CONTRACT_update_ip_i64 NV_UPD_P_I(update_ip_i64)
+#define NV_CONTRACT_update_ip_ll  NV_UPD_P_I(update_ip_ll)
+#define NV_CONTRACT_update_ip_i32 NV_UPD_P_I(update_ip_i32)
+#define NV_IP_F64_DEF (NV_F2I_DEFINED(NV_ARG_update_ip_f64_2) && NV_F2I_DEFINED(NV_ARG_update_ip_f64_3))
+#define NV_CONTRACT_update_ip_f64 NV_CONTRACT_UPDATE_P(NV_FIN_I, NV_EQ_I, int64_t, NV_IP_F64_DEF, NV_ARG_update_ip_f64_1, NV_ARG_update_ip_f64_2, NV_ARG_update_ip_f64_3) \
+__CPROVER_ensures(!NV_IP_F64_DEF ==> nv_thrown)
+#define NV_IP_F32_DEF (NV_F2I_DEFINED(NV_ARG_update_ip_f32_2) && NV_F2I_DEFINED(NV_ARG_update_ip_f32_3))
+#define NV_CONTRACT_update_ip_f32 NV_CONTRACT_UPDATE_P(NV_FIN_I, NV_EQ_I, int64_t, NV_IP_F32_DEF, NV_ARG_update_ip_f32_1, NV_ARG_update_ip_f32_2, NV_ARG_update_ip_f32_3) \
+__CPROVER_ensures(!NV_IP_F32_DEF ==> nv_thrown)
+#define NV_CONTRACT_update_fp_f32 NV_UPD_P_F(update_fp_f32)
+#define NV_CONTRACT_update_fp_f64 NV_UPD_P_F(update_fp_f64)
+#define NV_CONTRACT_update_fp_i64 NV_UPD_P_F(update_fp_i64)
+#define NV_CONTRACT_update_fp_ll  NV_UPD_P_F(update_fp_ll)
+#define NV_CONTRACT_update_fp_i32 NV_UPD_P_F(update_fp_i32)
 
 /* ------------------------------------------------------------------ ::update(name, storage_t&, number | tuple)
  * the std::visit dispatch: the active alternative decides; a parameter of any other kind rejects the assignment.
@@ -135,48 +174,59 @@ __CPROVER_ensures(!(NV_F2I_DEFINED(value1_) && NV_F2I_DEFINED(value2_)) ==> nv_t
 #define NV_ST_WF(s) ((1) && ((s).index != 2 || NV_RANGE_WF((s).a2)) && ((s).index != 3 || NV_RANGE_WF((s).a3)) && \
                      ((s).index != 4 || NV_PAIR_WF((s).a4)) && ((s).index != 5 || NV_PAIR_WF((s).a5)))
 
-#define NV_POST_ST_SCALAR(s, DEF) \
+#define NV_POST_ST_SCALAR(s, DEF, X) \
 __CPROVER_ensures((s).index == NV_OLD((s).index)) \
-NV_POST_R((s).index == 2, NV_FIN_I, NV_EQ_I, int64_t, DEF, (s).a2, value) \
-NV_POST_R((s).index == 3, NV_FIN_F, NV_EQ_F, double, 1, (s).a3, value) \
+NV_POST_R((s).index == 2, NV_FIN_I, NV_EQ_I, int64_t, DEF, (s).a2, X) \
+NV_POST_R((s).index == 3, NV_FIN_F, NV_EQ_F, double, 1, (s).a3, X) \
 __CPROVER_ensures((s).index != 2 ==> NV_SAME_R(NV_EQ_I, (s).a2)) \
 __CPROVER_ensures((s).index != 3 ==> NV_SAME_R(NV_EQ_F, (s).a3)) \
 __CPROVER_ensures(((s).index != 2 && (s).index != 3) ==> nv_thrown)
 
-#define NV_POST_ST_PAIR(s, DEF) \
+#define NV_POST_ST_PAIR(s, DEF, X) \
 __CPROVER_ensures((s).index == NV_OLD((s).index)) \
-NV_POST_P((s).index == 4, NV_FIN_I, NV_EQ_I, int64_t, DEF, (s).a4, value._0, value._1) \
-NV_POST_P((s).index == 5, NV_FIN_F, NV_EQ_F, double, 1, (s).a5, value._0, value._1) \
+NV_POST_P((s).index == 4, NV_FIN_I, NV_EQ_I, int64_t, DEF, (s).a4, X._0, X._1) \
+NV_POST_P((s).index == 5, NV_FIN_F, NV_EQ_F, double, 1, (s).a5, X._0, X._1) \
 __CPROVER_ensures((s).index != 4 ==> NV_SAME_P(NV_EQ_I, (s).a4)) \
 __CPROVER_ensures((s).index != 5 ==> NV_SAME_P(NV_EQ_F, (s).a5)) \
 __CPROVER_ensures(((s).index != 4 && (s).index != 5) ==> nv_thrown)
 
-#define NV_CONTRACT_UPDATE_ST_SCALAR(DEF) \
-__CPROVER_requires(!nv_thrown && __CPROVER_is_fresh(storage, sizeof(*storage)) && NV_ST_WF(*storage)) \
-__CPROVER_assigns(nv_thrown, storage->a2.m_value, storage->a3.m_value) \
-NV_POST_ST_SCALAR(*storage, DEF)
-#define NV_CONTRACT_UPDATE_ST_PAIR(DEF) \
-__CPROVER_requires(!nv_thrown && __CPROVER_is_fresh(storage, sizeof(*storage)) && NV_ST_WF(*storage)) \
-__CPROVER_assigns(nv_thrown, storage->a4.m_value1, storage->a4.m_value2, storage->a5.m_value1, storage->a5.m_value2) \
-NV_POST_ST_PAIR(*storage, DEF)
+#define NV_CONTRACT_UPDATE_ST_SCALAR(DEF, S, X) \
+__CPROVER_requires(!nv_thrown && __CPROVER_is_fresh(S, sizeof(*S)) && NV_ST_WF(*S)) \
+__CPROVER_assigns(nv_thrown, S->a2.m_value, S->a3.m_value) \
+NV_POST_ST_SCALAR(*S, DEF, X)
+#define NV_CONTRACT_UPDATE_ST_PAIR(DEF, S, X) \
+__CPROVER_requires(!nv_thrown && __CPROVER_is_fresh(S, sizeof(*S)) && NV_ST_WF(*S)) \
+__CPROVER_assigns(nv_thrown, S->a4.m_value1, S->a4.m_value2, S->a5.m_value1, S->a5.m_value2) \
+NV_POST_ST_PAIR(*S, DEF, X)
 
-#define NV_CONTRACT_update_st_i64 NV_CONTRACT_UPDATE_ST_SCALAR(1)
-#define NV_CONTRACT_update_st_f64 NV_CONTRACT_UPDATE_ST_SCALAR(NV_F2I_DEFINED(value))
-#define NV_CONTRACT_update_st_t32 NV_CONTRACT_UPDATE_ST_PAIR(1)
-#define NV_CONTRACT_update_st_t64 NV_CONTRACT_UPDATE_ST_PAIR(1)
-#define NV_CONTRACT_update_st_tf  NV_CONTRACT_UPDATE_ST_PAIR(NV_F2I_DEFINED(value._0) && NV_F2I_DEFINED(value._1))
+/* one contract per assigned type the storage-level template can be instantiated for (integers: the conversion to int64 is
+ * always defined; floating point: defined iff finite and representable) */
+#define NV_ST_I(n) NV_CONTRACT_UPDATE_ST_SCALAR(1, NV_ARG_##n##_1, NV_ARG_##n##_2)
+#define NV_ST_F(n) NV_CONTRACT_UPDATE_ST_SCALAR(NV_F2I_DEFINED(NV_ARG_##n##_2), NV_ARG_##n##_1, NV_ARG_##n##_2)
+#define NV_ST_TI(n) NV_CONTRACT_UPDATE_ST_PAIR(1, NV_ARG_##n##_1, NV_ARG_##n##_2)
+#define NV_ST_TF(n) NV_CONTRACT_UPDATE_ST_PAIR(NV_F2I_DEFINED(NV_ARG_##n##_2._0) && NV_F2I_DEFINED(NV_ARG_##n##_2._1), NV_ARG_##n##_1, NV_ARG_##n##_2)
+#define NV_CONTRACT_update_st_i64 NV_ST_I(update_st_i64)
+#define NV_CONTRACT_update_st_ll  NV_ST_I(update_st_ll)
+#define NV_CONTRACT_update_st_i32 NV_ST_I(update_st_i32)
+#define NV_CONTRACT_update_st_f64 NV_ST_F(update_st_f64)
+#define NV_CONTRACT_update_st_f32 NV_ST_F(update_st_f32)
+#define NV_CONTRACT_update_st_ti64 NV_ST_TI(update_st_ti64)
+#define NV_CONTRACT_update_st_tll  NV_ST_TI(update_st_tll)
+#define NV_CONTRACT_update_st_ti32 NV_ST_TI(update_st_ti32)
+#define NV_CONTRACT_update_st_tf64 NV_ST_TF(update_st_tf64)
+#define NV_CONTRACT_update_st_tf32 NV_ST_TF(update_st_tf32)
 
 /* ------------------------------------------------------------------ parameter_t::seti / setd / operator=(tuple) */
 #define NV_CONTRACT_PARAM_SCALAR(DEF) \
 __CPROVER_requires(!nv_thrown && __CPROVER_is_fresh(self, sizeof(*self)) && NV_ST_WF(self->m_storage)) \
 __CPROVER_assigns(nv_thrown, self->m_storage.a2.m_value, self->m_storage.a3.m_value) \
-NV_POST_ST_SCALAR(self->m_storage, DEF) \
+NV_POST_ST_SCALAR(self->m_storage, DEF, value) \
 __CPROVER_ensures(self->m_name.id == NV_OLD(self->m_name.id)) \
 __CPROVER_ensures(!nv_thrown ==> __CPROVER_return_value == self)
 #define NV_CONTRACT_PARAM_PAIR(DEF) \
 __CPROVER_requires(!nv_thrown && __CPROVER_is_fresh(self, sizeof(*self)) && NV_ST_WF(self->m_storage)) \
 __CPROVER_assigns(nv_thrown, self->m_storage.a4.m_value1, self->m_storage.a4.m_value2, self->m_storage.a5.m_value1, self->m_storage.a5.m_value2) \
-NV_POST_ST_PAIR(self->m_storage, DEF) \
+NV_POST_ST_PAIR(self->m_storage, DEF, value) \
 __CPROVER_ensures(self->m_name.id == NV_OLD(self->m_name.id)) \
 __CPROVER_ensures(!nv_thrown ==> __CPROVER_return_value == self)
 #define NV_CONTRACT_parameter_seti NV_CONTRACT_PARAM_SCALAR(1)
